@@ -105,7 +105,7 @@ def bl(b):
 
 def pipe_case_lit(case, r):
     legs = '[' + '; '.join(leg_lit(case['mods'], l) for l in case['legs']) + ']'
-    mif = '(@nil (option Z))' if not r['mif'] else '[' + '; '.join('None' if k is None else '(Some (%d))' % k for k in r['mif']) + ']'
+    mif = '(@nil (option Z))' if not r['mif'] else '[' + '; '.join('(@None Z)' if k is None else '(Some (%d))' % k for k in r['mif']) + ']'
     return '(%s, %s, (%d), %s, %s, (%s, %s, %s, %s, %s))' % (
         zl(case['mods']), legs, case['qconj'], bl(case['sort']), bl(case['bunch']),
         zll(r['charges']), zl(r['slices']), zll(r['q_map']), zl(r['q_map_slices']), mif)
@@ -121,7 +121,7 @@ def leg_case_lit(case, r):
     for i, res in r['get_qindex']:
         if i == n:
             continue      # boundary handled by the oracle (see F3A)
-        gq.append('((%d), %s)' % (i, 'None' if not isinstance(res, list) else '(Some (%d%%nat, (%d)))' % tuple(res)))
+        gq.append('((%d), %s)' % (i, '(@None (nat * Z))' if not isinstance(res, list) else '(Some (%d%%nat, (%d)))' % tuple(res)))
 
     def pb(perm, blocks):
         return '(%s, %s)' % (nl(perm), blocks_lit2(blocks))
@@ -367,6 +367,9 @@ def leg_oracle(case, r):
 
 # ------------------------------------------------------------------------------------------------
 
+CMP_KEYS = ('charges', 'slices', 'q_map', 'q_map_slices', 'sorted', 'bunched', 'ind_len', 'mif', 'qflat', 'qind_ok', 'to_leg')
+
+
 def run_chunks(script, kind, cases, config, optimize0=True):
     n = common.NPROC
     if config == 'cy':
@@ -452,7 +455,7 @@ def main(ctx):
     stride_note = []
     for name, ex, budget in (('U1', ex1, 2400), ('Z2', ex2, 1200), ('Z3', ex3, 900), ('single', ex4, 1500),
                              ('U1xZ2', ex5, 900), ('q0', ex6, 400)):
-        budget = budget * (12 if thorough else 1) * boost
+        budget = budget * (6 if thorough else 1) * boost
         if len(ex) > budget:
             step = len(ex) / float(budget)
             off = rng.random() * step
@@ -462,7 +465,7 @@ def main(ctx):
             stride_note.append('%s: complete (%d)' % (name, len(ex)))
         pipes += ex
         n_ex += len(ex)
-    nrand = ctx.pick(1000, 12000) * boost
+    nrand = ctx.pick(1000, 6000) * boost
     for _ in range(nrand):
         c = rand_pipe(rng, maxlegs=4)
         tot = 1
@@ -474,7 +477,8 @@ def main(ctx):
     if err:
         ctx.fail('correspondence', 'pipe runner (py) failed: ' + err[-600:], None)
         return ctx.finish(RULE)
-    res_cy, err = run_chunks('c06_impl.py', 'pipe', pipes, 'cy')
+    # the compiled replacements are only active at TENPY_OPTIMIZE >= 1 (tools/optimization.use_cython)
+    res_cy, err = run_chunks('c06_impl.py', 'pipe', pipes, 'cy', optimize0=False)
     if err:
         ctx.fail('correspondence', 'pipe runner (cy) failed: ' + err[-600:], None)
         res_cy = [None] * len(pipes)
@@ -491,8 +495,8 @@ def main(ctx):
             if 'runner_error' in rc:
                 ctx.fail('oracle', 'LegPipe (compiled) raised on valid legs: ' + rc['runner_error'][-400:],
                          {'stream': 'pipe', 'config': 'cy', 'case': case})
-            elif rc != r:
-                diff = [k for k in r if r[k] != rc.get(k)]
+            elif any(rc.get(k) != r[k] for k in CMP_KEYS):
+                diff = [k for k in CMP_KEYS if r[k] != rc.get(k)]
                 ctx.fail('oracle', 'compiled and python LegPipe._init_from_legs differ in %s' % diff,
                          {'stream': 'pipe', 'config': 'cy', 'case': case, 'py': {k: r[k] for k in diff}, 'cy': {k: rc.get(k) for k in diff}})
         for key, text in pipe_oracle(case, r):
@@ -523,7 +527,7 @@ def main(ctx):
     # ---------------- leg operations
     lcases = [c['case'] for c in common.corpus_cases('C06') if c.get('stream') == 'leg']
     ex_legs = [([1], l) for l in enum_legs([1], 3, (0, 1, 2), (0, 1))] + [([2, 1], l) for l in enum_legs([2, 1], 2, (1, 2), (0, 1))]
-    lbudget = ctx.pick(800, 8000) * boost
+    lbudget = ctx.pick(800, 5000) * boost
     if len(ex_legs) > lbudget:
         step = len(ex_legs) / float(lbudget)
         ex_legs = [ex_legs[int(i * step)] for i in range(lbudget)]
@@ -531,7 +535,7 @@ def main(ctx):
         n = sum(l[0])
         lcases.append({'mods': mods, 'leg': l, 'mask': [rng.random() < 0.6 for _ in range(n)],
                        'extra': rng.choice([0, 1, 2, rand_leg(rng, mods)])})
-    for _ in range(ctx.pick(600, 6000) * boost):
+    for _ in range(ctx.pick(600, 4000) * boost):
         mods = rng.choice(MODS)
         l = rand_leg(rng, mods, maxb=rng.choice([3, 3, 5]))
         n = sum(l[0])
@@ -568,7 +572,7 @@ def main(ctx):
     ctx.cov['traces_validated_against_impl'] += len(lits)
     # ---------------- arrays: combine_legs / split_legs / sort_legcharge / as_completely_blocked, both configs
     acases = [c['case'] for c in common.corpus_cases('C06') if c.get('stream') == 'array']
-    na = ctx.pick(300, 3500) * boost
+    na = ctx.pick(300, 2000) * boost
     for k in range(na):
         c = rand_array_case(rng, ctx.seed * 1000003 + k)
         tot = 1
@@ -577,7 +581,7 @@ def main(ctx):
         if tot <= 400:
             acases.append(c)
     for config in ('py', 'cy'):
-        res_a, err = run_chunks('c06_impl.py', 'array', acases, config)
+        res_a, err = run_chunks('c06_impl.py', 'array', acases, config, optimize0=(config == 'py'))
         if err:
             ctx.fail('correspondence', 'array runner (%s) failed: %s' % (config, err[-600:]), None)
             continue
